@@ -476,4 +476,116 @@ example :
   decide
 
 
+/-! ## the hook run: a failed hook (operator.go:660-670), overlapping runs of one hook -/
+
+/-- **All or nothing, also when the hook fails.** Whatever `Hook.Run` hands over after a failed
+process (nothing, as the pinned `Run` does, or the bytes of the file): if the stream does not decode
+or any document is invalid, nothing is applied — not even a valid `/status` patch marked
+`ignoreHookError` in front of the invalid document — and the execution fails. -/
+theorem failed_hook_all_or_nothing (pf : PatchFn) (nz : Bool) (f : Form) (ss : Sub) (bytes : Option Stream)
+    (st : St) (ws : Writers)
+    (h : bytes = none ∨ bytes = some .garbled ∨ ∃ ds, bytes = some (.docs ds) ∧ ∃ d ∈ ds, d.valid = false) :
+    handleRun pf nz f ss false bytes st ws = ⟨st, true, false, 0, false⟩ := by
+  rcases h with rfl | rfl | ⟨ds, rfl, hd⟩
+  · simp [handleRun]
+  · simp [handleRun, parse]
+  · have := parseLoop_some_invalid nz f ds [] hd
+    simp only [handleRun, parse]
+    generalize parseLoop nz f ds [] = r at this
+    obtain ⟨ops, e⟩ := r
+    simp only at this
+    subst this
+    simp
+
+/-- **C13 for one execution of a hook (both branches of `handleRunHook`).** For every stream, every
+cluster, every history of other writers, whether the hook process succeeded or failed, and whether or
+not `Run` hands over the file of a failed process: what the execution shows is accepted by
+`Spec.acceptRun` — a successful hook: `Spec.expectedH`; a failed hook: the execution fails, nothing is
+applied if any document is invalid, otherwise nothing or exactly the on-hook-error operations once
+each in document order. -/
+theorem handleRun_meets_spec {α : Type} [DecidableEq α] (view : Cluster → List Action → α)
+    (pf : PatchFn) (f : Form) (ss : Sub) (ds : List Doc) (c : Cluster)
+    (ws : Writers) (hookOk rd : Bool) :
+    let r := handleRun pf true f ss hookOk (runBytes rd hookOk (.docs ds)) ⟨c, []⟩ ws
+    Spec.acceptRun view pf ss false ds c ws hookOk (r.failed, view r.st.cluster r.st.log) = true ∧
+    r.panicked = false := by
+  cases hookOk with
+  | true =>
+    obtain ⟨h1, h5⟩ := handle_meets_spec_any_history pf f ds c ws
+    simp only [handleRun, runBytes, Spec.acceptRun, Bool.true_or, ↓reduceIte, ← h1]
+    exact ⟨by simp, h5⟩
+  | false =>
+    cases rd with
+    | false => simp [handleRun, runBytes, Spec.acceptRun]
+    | true =>
+      by_cases hv : ∃ d ∈ ds, d.valid = false
+      · have := failed_hook_all_or_nothing pf true f ss (some (.docs ds)) ⟨c, []⟩ ws
+          (Or.inr (Or.inr ⟨ds, rfl, hv⟩))
+        obtain ⟨d, hd, hdv⟩ := hv
+        have hany : ds.any (fun d => !d.valid) = true := by
+          simp only [List.any_eq_true]; exact ⟨d, hd, by simp [hdv]⟩
+        simp [runBytes, this, Spec.acceptRun, hany]
+      · have hall : ∀ d ∈ ds, d.valid = true := by
+          intro d hd
+          cases hdv : d.valid
+          · exact absurd ⟨d, hd, hdv⟩ hv
+          · rfl
+        have hany : ds.any (fun d => !d.valid) = false := by
+          simp only [List.any_eq_false]; intro d hd; simp [hall d hd]
+        have hmap : ds.map (opOf true f) = (ds.map (·.op)).map (Op.withRep .f64) := by
+          simp only [List.map_map]
+          apply List.map_congr_left
+          intro d _
+          have : repOf true f d.inline = .f64 := by cases f <;> simp [repOf]
+          simp [opOf, this]
+        have hops : ∀ op ∈ onHookError ss (ds.map (opOf true f)), op.intTyped = false := by
+          intro op hop
+          rw [hmap, onHookError_withRep] at hop
+          simp only [List.mem_map] at hop
+          obtain ⟨o, _, rfl⟩ := hop
+          exact intTyped_withRep_f64 o
+        simp only [handleRun, runBytes, Bool.false_or, Bool.false_eq_true, ↓reduceIte,
+          parse_valid true f ds hall, executeH_refines pf _ ⟨c, []⟩ ws 0 hops, Spec.acceptRun, hany]
+        rw [hmap, onHookError_withRep, runH_withRep]
+        simp
+
+/-- Non-vacuity: a failed hook whose file is [valid `/status` merge patch with `ignoreHookError`,
+invalid document] — even a `Run` that hands the file over applies nothing; with the invalid document
+left out exactly that patch is applied. -/
+example :
+    let p : Doc := ⟨true, .patch .merge 1 true 2 false true (some [.set 1 (.s 7)]), true⟩
+    let q : Doc := ⟨true, .create false false (.good 3 true [] .f64), true⟩
+    let bad : Doc := ⟨false, .delete .background 1 true 0, true⟩
+    handleRun concretePf true .yaml 2 false (runBytes true false (.docs [p, bad])) ⟨[(1, [])], []⟩ [] =
+      ⟨⟨[(1, [])], []⟩, true, false, 0, false⟩ ∧
+    (handleRun concretePf true .yaml 2 false (runBytes true false (.docs [p, q])) ⟨[(1, [])], []⟩ []).st =
+      ⟨[(1, [(1, .s 7)])], [⟨.patchMerge, 1, 2⟩]⟩ ∧
+    handleRun concretePf true .yaml 2 false (runBytes false false (.docs [p, q])) ⟨[(1, [])], []⟩ [] =
+      ⟨⟨[(1, [])], []⟩, true, false, 0, false⟩ := by decide
+
+/-- **Applied once each, also when runs of one hook overlap.** Any number of runs, any interleaving
+of their file steps (prepare / the process writes / read back / remove): if every run has its own
+file name (`prepareObjectPatchFile`: a fresh uuid per call), what a run reads back — and so what it
+parses and applies — is what it would have read running alone: the documents its own process wrote. -/
+theorem overlapping_runs_read_own (path : Nat → Path) (hinj : ∀ a b, path a = path b → a = b)
+    (sched : List (Nat × FStep)) (r : Nat) :
+    aget (frun path sched {}).got r = aget (frun path (sched.filter (fun e => e.1 == r)) {}).got r :=
+  (frun_own path hinj r sched {} {} rfl rfl).2
+
+/-- A complete run alone reads exactly what its process wrote last. -/
+theorem run_alone_reads_what_it_wrote (path : Nat → Path) (r : Nat) (ds : Content) :
+    aget (frun path [(r, .prepare), (r, .write ds), (r, .read), (r, .remove)] {}).got r = some (some ds) ∧
+    aget (frun path [(r, .prepare), (r, .read), (r, .remove)] {}).got r = some (some []) := by
+  simp [frun, fstep, aget_aset_same]
+
+/-- Non-vacuity / witness: with ONE file name per hook (a name memoised in the `Hook`) two
+overlapping runs of the hook lose or swap their documents: run 0 wrote `[1]`, run 1 starts
+(truncates), writes `[2]`, reads `[2]`, removes the file; run 0 then finds no file. With a name per
+run both read their own documents in the same interleaving. -/
+theorem memoised_path_witness :
+    let sched : List (Nat × FStep) := [(0, .prepare), (0, .write [1]), (1, .prepare), (1, .write [2]),
+      (1, .read), (1, .remove), (0, .read), (0, .remove)]
+    (frun (fun _ => 0) sched {}).got = [(0, none), (1, some [2])] ∧
+    (frun (fun r => r) sched {}).got = [(0, some [1]), (1, some [2])] := by decide
+
 end ShellOp.Patch.C13
